@@ -286,7 +286,7 @@ def shard(tier, seedv, k, n, col: Collector):
         if not res and nontrivial(case) and case["kind"] in ("utf8", "base32", "method"):
             col.sample(case)
 
-    hyp_run(body, case_strategy(), N[tier], seedv)
+    hyp_run(body, case_strategy(), N[tier], seedv, col=col)
 
 
 def shrinks(case):
